@@ -1353,6 +1353,9 @@ func makeTaskForMesosResources(
 			}
 			// TODO: this can be optimized by excluding the base range outside the loop
 			availPorts = availPorts.Remove(mesos.Value_Range{Begin: 0, End: 8999})
+			if len(availPorts) == 0 { // no suitable port left in this offer (Min would panic)
+				return nil, nil
+			}
 			port := availPorts.Min()
 			builder := resources.Build().
 				Name(resources.Name("ports")).
@@ -1416,6 +1419,9 @@ func makeTaskForMesosResources(
 	// The control port range starts at 47101
 	// FIXME: make the control ports cutoff configurable
 	availPorts = availPorts.Remove(mesos.Value_Range{Begin: 0, End: 29999})
+	if len(availPorts) == 0 { // no suitable port left in this offer (Min would panic)
+		return nil, nil
+	}
 	controlPort := availPorts.Min()
 	builder := resources.Build().
 		Name(resources.Name("ports")).
@@ -1527,6 +1533,9 @@ func makeTaskForMesosResources(
 		}()).
 		Debug("creating Mesos task")
 	resourcesRequest.Add(executorResources...)
+
+	// what this task requests is no longer available to the next task placed on the same offer
+	remainingResourcesInOffer.Subtract(resourcesRequest...)
 
 	newTaskId := taskPtr.GetTaskId()
 
